@@ -213,11 +213,17 @@ def any_kind_reuse(s, idx):
                 a_, t_ = rng.sample(I_, 2)
                 msg_txt = B.msg_doc(kind, 50, story_ref=sid_, ids=[a_, 'later-%d' % idx],
                                     **({} if kind == 'EAItemSwap' else {'target': rng.choice([t_, B.BLANK])}))
+    judge_reuse(s, ro_txt, msg_txt, kind, idx)
+
+
+def judge_reuse(s, ro_txt, msg_txt, kind, idx):
+    import contextlib
+    import io
     try:
         m = s.load(msg_txt)
     except Exception:
         return
-    wit = {'type': 'c13', 'ro_txt': ro_txt, 'msg_txt': msg_txt, 'kind': kind, 'edits': []}
+    wit = {'type': 'c13', 'scenario': 'any', 'ro_txt': ro_txt, 'msg_txt': msg_txt, 'kind': kind, 'edits': []}
     t0 = str(m)
     for name in ('story', 'stories', 'item', 'items', 'source_story', 'target_story', 'source_stories'):
         try:
@@ -281,6 +287,16 @@ def any_kind_reuse(s, idx):
     if not same:
         s.custom_violation('re-merge-of-same-object-differs-from-fresh-copy',
                            {'kind': kind, 'excs': [type(x).__name__ for x in (ea, eb, ec)]}, wit, msg_kind=kind, status='c')
+    # the same object again, straight away, into the SAME running order  ==  a second freshly parsed copy
+    ro_d, ed1, _ = s.add(ro_b, m)
+    ro_e, ee1, _ = s.add(ro_c, s.load(msg_txt))
+    s.drain_and_judge(None, {'any-kind-reuse-immediate': idx})
+    same2 = str(ro_d) == str(ro_e) and type(ed1) is type(ee1)
+    s.evaluations += 1
+    s.note_sig((kind, 'again', same2, type(ed1).__name__))
+    if not same2:
+        s.custom_violation('immediate-re-merge-of-same-object-differs-from-fresh-copy',
+                           {'kind': kind, 'excs': [type(x).__name__ for x in (ed1, ee1)]}, wit, msg_kind=kind, status='again')
 
 
 def via_collection(s, idx):
@@ -323,6 +339,9 @@ def run(s):
 
 def replay(s, data):
     w = data['witness']
+    if w.get('scenario') == 'any':
+        judge_reuse(s, w['ro_txt'], w['msg_txt'], w['kind'], 0)
+        return
     if w.get('type') != 'c13':
         return K.replay_transition(s, data) if w.get('type') == 'transition' else None
     ro1 = s.load(w['ro_txt'])
